@@ -10,10 +10,12 @@ package dns
 //@ func (*Conn).Write [C12]
 //@   requires co != nil && co.Conn != nil
 //@   ensures big: len(p) > 65535 ==> ret1 != nil
+//@   assert at "message too large" only: len(p) > 65535
 //@   assert at "return co.Conn.Write(msg)" frame: len(p) <= 65535 && len(msg) == len(p) + 2 && msg[0] == len(p) / 256 && msg[1] == len(p) % 256 && (forall k in 0..len(p) :: msg[2+k] == p[k])
 //@ func (*response).Write [C12]
 //@   requires w != nil
 //@   may-panic
+//@   assert at "message too large" only: len(m) > 65535
 //@   assert at "return w.tcp.Write(msg)" frame: len(m) <= 65535 && len(msg) == len(m) + 2 && msg[0] == len(m) / 256 && msg[1] == len(m) % 256 && (forall k in 0..len(m) :: msg[2+k] == m[k])
 
 // reading: the two-octet length decides how many octets are read (io.ReadFull: all of them or an error);
